@@ -336,8 +336,9 @@ class Sampler2D(DaeObject):
         """Saves the sampler data back to :attr:`xmlnode`"""
         samplernode = self.xmlnode.find(tag('sampler2D'))
         sourcenode = samplernode.find(tag('source'))
-        _correctValInNode(samplernode, 'minfilter', self.minfilter)
-        _correctValInNode(samplernode, 'magfilter', self.magfilter)
+        order = ('source', 'wrap_s', 'wrap_t', 'minfilter')
+        _correctValInNode(samplernode, 'minfilter', self.minfilter, order[:3])
+        _correctValInNode(samplernode, 'magfilter', self.magfilter, order)
         sourcenode.text = self.surface.id
         self.xmlnode.set('sid', self.id)
 
